@@ -16,7 +16,7 @@ func init() {
 		Explanation: "removal soundness of the at-most-one detection: (a) a binary clause is queued for removal only where the cardinality constraint that subsumes it is added (the two are control equivalent); " +
 			"(b) the function that rebuilds Clauses copies every clause that is not removed (its copy loop is left by exhaustion only); (c) the added constraint has degree len-1 and satisfies the constructor's precondition.",
 		NotDecided: "the clique search itself (which literals are grouped, in which polarity, that the queued indexes are those of the subsumed clauses); nothing is executed.",
-		Rules:      []ruleFn{ruleR15, ruleR15_4, ruleR15_5, ruleR15_6, ruleR15_7},
+		Rules:      []ruleFn{ruleR15, ruleR15_4, ruleR15_5, ruleR15_6, ruleR15_7, ruleR15_8},
 		Fixtures:   []func(*World) []string{fixtureR15},
 	})
 }
